@@ -2212,11 +2212,11 @@ impl SubRule {
             let mut m = true;
             while *state_index < states.len() {
                 #[cfg(asca_verif)] crate::verif::tick(26);
+                // NOTE: input_match_item advances state_index itself on a match
                 if !self.input_match_item(captures, pos, state_index, word, states)? {
                     m = false;
                     break;
                 }
-                *state_index += 1;
             }
             if m {
                 return Ok(true)
